@@ -4,7 +4,8 @@ from framework.common import Job
 from framework.report import Report
 
 RULE = ("in-contract workloads (random boxes per constraint type, random models x configurations incl. cost-based "
-        "heuristics, the heuristics unit harness, shipped models at small sizes, in-capacity deep searches) executed "
+        "heuristics, the heuristics unit harness, shipped models at small sizes, in-capacity deep searches, large planted "
+        "models with arity <= 14 in the bounds-check build) executed "
         "under (1) a source-level bounds sanitizer: every non-literal subscript of every nucs module re-compiled to "
         "check integer indices, index arrays and slice bounds per axis, flagging computed negative indices and clamped "
         "slices too; (2) numba's bounds-check build with an unraisable-exception hook that halts on the first report; "
@@ -34,6 +35,7 @@ def main(tier, seed):
                         {"seed": seed * 919 + c, "calls": 500 if heavy else (4000 if q else 60000),
                          "models": 10 if heavy else (120 if q else 2500), "shipped": c < 2, "units": c == 2,
                          "unit_random": 400, "canary": heavy, "tier": tier, "tight": 80 if q else 800,
+                         "big": (60 if q else 1500) if c in (0, 2) else 0, "big_deadline_s": 40 if q else 600,
                          "deadline_s": 90 if q else 900},
                         mode="bc", timeout=400 if q else 1800, tag="boundscheck:%d" % c, stall_s=200))
     common.run_jobs(jobs)
@@ -55,7 +57,7 @@ def main(tier, seed):
             rep.violation(dict(f, mode=r["mode"]))
         for k, v in r.get("counts", {}).items():
             rep.count("%s.%s" % ("sanitizer" if j.func == "run_sanitized" else "boundscheck", k), v)
-            rep.evaluations += v if k in ("calls", "runs", "shipped", "units", "canary_cases", "tight_stack_cases") else 0
+            rep.evaluations += v if k in ("calls", "runs", "shipped", "units", "canary_cases", "tight_stack_cases", "large_model_runs") else 0
         if j.func == "run_sanitized":
             sz = r["sanitizer"]
             sites = max(sites, sz["sites"])
